@@ -87,14 +87,31 @@ func timerCase(r *rand.Rand, o *hout.Out) {
 	start := time.Now()
 	done := make(chan time.Duration, 1)
 	go func() { tm.TakeTimeout(); done <- time.Since(start) }()
-	var actual []int
+	type stamp struct{ before, after time.Duration }
+	var stamps []stamp
 	for _, off := range rs {
 		time.Sleep(time.Until(start.Add(time.Duration(off) * time.Millisecond)))
+		b := time.Since(start)
 		tm.Refresh()
-		actual = append(actual, int(time.Since(start)/time.Millisecond))
+		stamps = append(stamps, stamp{b, time.Since(start)})
 	}
 	el := <-done
 	tm.Close()
+	// on a loaded machine a scripted refresh can come after the timer has already expired: such a refresh did not
+	// happen as far as the expiry is concerned; one that straddles the expiry makes the case unusable
+	var actual []int
+	lastBefore := 0.0
+	for _, st := range stamps {
+		if st.after < el {
+			actual = append(actual, int(st.after/time.Millisecond))
+			lastBefore = float64(st.before) / float64(time.Millisecond)
+		} else if st.before <= el+2*time.Millisecond {
+			mu.Lock()
+			o.Count("timer.discarded-refresh-straddles-expiry")
+			mu.Unlock()
+			return
+		}
+	}
 	last := 0
 	if len(actual) > 0 {
 		last = actual[len(actual)-1]
@@ -105,7 +122,7 @@ func timerCase(r *rand.Rand, o *hout.Out) {
 		fmt.Fprintf(&sb, " %d", a)
 	}
 	elMs := float64(el) / float64(time.Millisecond)
-	lo := float64(last + T)
+	lo := lastBefore + float64(T) // the refresh took effect no earlier than the moment before the call
 	hi := float64(last+T+P) + float64(slack)/float64(time.Millisecond)
 	mu.Lock()
 	defer mu.Unlock()
